@@ -21,7 +21,9 @@ SimNums   == {"2", "0.5", "3", "10", "0.1", "1"}
 ArithOps  == {"+", "-", "*", "/", "**"}
 PlusOnly  == {"+"}
 PowOnly   == {"**"}
+PowDiv    == {"**", "/"}
 PowNums   == {"0.5", "2", "3"}
+PowInts   == {"1", "2"}
 ShapeOps  == {"+", "-", "*", "/", "**"}
 PairCmps  == {"<", ">=", "=="}
 LtOnly    == {"<"}
